@@ -147,7 +147,7 @@ fn history_from_json(zoo: &Zoo, j: &J) -> Result<(Vec<(usize, Value)>, usize), S
 
 /// open known findings are excluded from generation by construction (DESIGN.md section 6)
 pub fn value_cfg(report: &Report, conformance: bool, tier: Tier) -> ValueCfg {
-    let mut cfg = ValueCfg { conformance, big_weight: tier.pick(2, 4), ..ValueCfg::default() };
+    let mut cfg = ValueCfg { conformance, big_weight: tier.pick(1, 4), ..ValueCfg::default() };
     if report.known.any_open("fragmented-list-or-string") {
         cfg.max_big_elems = 16383;
     }
